@@ -26,7 +26,6 @@ import (
 	"log"
 	"net/http"
 	"net/http/httptest"
-	"net/http/httptrace"
 	"net/url"
 	"os"
 	"sort"
@@ -74,16 +73,6 @@ type reqState struct {
 	done     chan struct{}
 	once     sync.Once
 	panicked atomic.Value // string
-	mu       sync.Mutex
-	marks    []string
-}
-
-var t0 = time.Now()
-
-func (st *reqState) mark(m string) {
-	st.mu.Lock()
-	st.marks = append(st.marks, fmt.Sprintf("%s@%d", m, time.Since(t0).Milliseconds()))
-	st.mu.Unlock()
 }
 
 type scen struct {
@@ -121,10 +110,7 @@ func b2i(b bool) int32 {
 func (s *scen) handle(w http.ResponseWriter, r *http.Request) {
 	st := s.state(r.Header.Get("X-Req-Id"))
 	atomic.AddInt32(&st.invoked, 1)
-	st.mark("h-start")
 	n, _ := io.Copy(io.Discard, r.Body)
-	st.mark("h-bodyread")
-	defer st.mark("h-end")
 	if r.Header.Get("X-Hold") != "" {
 		close(s.holdEntered)
 		<-s.holdRelease
@@ -190,9 +176,7 @@ func (s *scen) handle(w http.ResponseWriter, r *http.Request) {
 		if sc.flushAfter == i+1 {
 			if fi {
 				fl.Flush()
-				st.mark("h-flushed")
 				atomic.StoreInt32(&st.flush, waitDelivered(st, cum))
-				st.mark("h-waited")
 			} else {
 				atomic.StoreInt32(&st.flush, 0)
 			}
@@ -200,13 +184,16 @@ func (s *scen) handle(w http.ResponseWriter, r *http.Request) {
 	}
 }
 
+// waitDelivered reports whether the client has read the first cum body bytes while the handler is still running.
+// The negative answer needs both the wall-clock wait and a minimum number of polls actually executed, so that a
+// stalled machine cannot turn a delivered flush into "not delivered".
 func waitDelivered(st *reqState, cum int64) int32 {
 	deadline := time.Now().Add(flushWait)
-	for {
+	for polls := 0; ; polls++ {
 		if atomic.LoadInt32(&st.hdrSeen) == 1 && atomic.LoadInt64(&st.read) >= cum {
 			return 1
 		}
-		if time.Now().After(deadline) {
+		if polls >= 500 && time.Now().After(deadline) {
 			return 0
 		}
 		time.Sleep(200 * time.Microsecond)
@@ -394,7 +381,6 @@ func (s *scen) do(body int, hdr map[string]string) (*http.Response, *reqState, e
 	s.seq++
 	id := strconv.Itoa(s.seq)
 	st := s.state(id)
-	st.mark("c-start")
 	var rd io.Reader
 	method := http.MethodGet
 	if body > 0 {
@@ -409,24 +395,7 @@ func (s *scen) do(body int, hdr map[string]string) (*http.Response, *reqState, e
 	for k, v := range hdr {
 		req.Header.Set(k, v)
 	}
-	tr := &httptrace.ClientTrace{
-		ConnectStart:         func(_, _ string) { st.mark("c-connstart") },
-		ConnectDone:          func(_, _ string, _ error) { st.mark("c-conndone") },
-		WroteRequest:         func(httptrace.WroteRequestInfo) { st.mark("c-wrote") },
-		GotFirstResponseByte: func() { st.mark("c-firstbyte") },
-	}
-	req = req.WithContext(httptrace.WithClientTrace(req.Context(), tr))
-	begin := time.Now()
 	resp, err := s.client.Do(req)
-	if d := time.Since(begin); d > 2500*time.Millisecond {
-		if fn := os.Getenv("C20_DEBUG_FILE"); fn != "" {
-			if fh, e := os.OpenFile(fn, os.O_APPEND|os.O_CREATE|os.O_WRONLY, 0o644); e == nil {
-				st.mark("c-slow")
-				fmt.Fprintln(fh, "SLOW", d, err, st.marks)
-				fh.Close()
-			}
-		}
-	}
 	return resp, st, err
 }
 
@@ -439,7 +408,7 @@ func (s *scen) prime(status string) error {
 	_ = resp.Body.Close()
 	select {
 	case <-st.done:
-	case <-time.After(3 * time.Second):
+	case <-time.After(10 * time.Second):
 		return fmt.Errorf("prime not finished")
 	}
 	return nil
@@ -480,15 +449,7 @@ func (s *scen) Op(f []string) string {
 	}
 	body := hx.KVInt(f, "body", 0)
 	resp, st, err := s.do(body, nil)
-	st.mark("c-do-returned")
 	if err != nil {
-		st.mark("c-err")
-		if fn := os.Getenv("C20_DEBUG_FILE"); fn != "" {
-			if fh, e := os.OpenFile(fn, os.O_APPEND|os.O_CREATE|os.O_WRONLY, 0o644); e == nil {
-				fmt.Fprintln(fh, "DEBUG", err, st.marks, f)
-				fh.Close()
-			}
-		}
 		<-waitOr(st.done, 500*time.Millisecond)
 		return fmt.Sprintf("err transport:%s invoked=%d%s", errClass(err), atomic.LoadInt32(&st.invoked), panicNote(st))
 	}
@@ -593,9 +554,7 @@ func newScenario(cfg []string) (hx.Handler, string) {
 	}
 	top := http.HandlerFunc(func(w http.ResponseWriter, r *http.Request) {
 		st := s.state(r.Header.Get("X-Req-Id"))
-		st.mark("top-start")
 		defer st.once.Do(func() { close(st.done) })
-		defer st.mark("top-end")
 		defer func() {
 			if p := recover(); p != nil {
 				st.panicked.Store(strings.ReplaceAll(fmt.Sprint(p), " ", "_"))
@@ -610,7 +569,7 @@ func newScenario(cfg []string) (hx.Handler, string) {
 	s.client = &http.Client{
 		Transport:     &http.Transport{DisableKeepAlives: true, DisableCompression: true},
 		CheckRedirect: func(*http.Request, []*http.Request) error { return http.ErrUseLastResponse },
-		Timeout:       4 * time.Second,
+		Timeout:       15 * time.Second,
 	}
 	if intervene >= 0 {
 		switch specs[intervene].kind {
@@ -630,7 +589,7 @@ func newScenario(cfg []string) (hx.Handler, string) {
 			}()
 			select {
 			case <-s.holdEntered:
-			case <-time.After(3 * time.Second):
+			case <-time.After(10 * time.Second):
 				s.Close()
 				return nil, "err prime hold"
 			}
@@ -653,5 +612,7 @@ func main() {
 	if v := os.Getenv("HX_FLUSH_WAIT_MS"); v != "" {
 		flushWait = time.Duration(hx.Atoi(v)) * time.Millisecond
 	}
+	// every op is a real HTTP exchange; a loaded machine has been seen to stall one for several seconds
+	hx.OpTimeout = 20 * time.Second
 	hx.Main(newScenario)
 }
